@@ -21,6 +21,9 @@ func C02(c *core.Ctx) {
 		)
 	}
 	ops = append(ops, pub("X", "zz", 0, 0, p8k), Action{Kind: "pub", Client: "X", Topic: "t", QoS: 2, ID: 1, Payload: p8k})
+	// packets whose remaining length is written in one byte more than necessary: the library
+	// accepts them, so they are the PUBREL / PUBLISH they are
+	ops = append(ops, Action{Kind: "pubrel", Client: "X", ID: 1, Pad: 1}, Action{Kind: "pub", Client: "X", Topic: "t", QoS: 1, ID: 2, Payload: "P1", Pad: 1})
 	// a topic the broker does not route (first level starts with '$'): it is acknowledged all the same
 	ops = append(ops, pub("X", "$SYS/x", 1, 2, "S1"))
 	comps := map[string]bool{"acks": true, "route": true, "stream": true, "closed": true}
